@@ -145,11 +145,11 @@ const (
 
 // Reassembler is the reference packet reassembly automaton.
 type Reassembler struct {
-	Max        int
-	wmS, wmM   uint64 // watermark: lowest acceptable id
-	open       bool
-	cur        Packet
-	Discarded  int
+	Max       int
+	wmS, wmM  uint64 // watermark: lowest acceptable id
+	open      bool
+	cur       Packet
+	Discarded int
 }
 
 // NewReassembler returns a reassembler with the initial watermark (1,1).
